@@ -54,7 +54,11 @@ def generate(rng, tier):
     n = 320 if tier == "quick" else 15000
     cases = []
     for _ in range(n):
-        ports = [_port(rng, k) for k in range(rng.choice([0, 1, 1, 2, 3, 4, 6]))]
+        ports = []
+        for k in range(rng.choice([0, 1, 1, 2, 3, 4, 6])):
+            p = _port(rng, k)
+            while any(p[0].lower() == q[0].lower() for q in ports): p = _port(rng, k + 20 + len(ports))          # an enumeration lists a device once
+            ports.append(p)
         lookups = [None]
         for p in ports:
             lookups.append(_variant(rng, p[0]))
